@@ -57,6 +57,27 @@ def weights(rng, kind, N):
     return [1.0] * N
 
 
+def cond_frobenius(a):
+    """||A||_F * ||A^-1||_F of a small square matrix (list of columns), Gauss-Jordan with partial pivoting in floats; None if singular"""
+    import math
+    n = len(a)
+    m = [[a[j][i] for j in range(n)] + [1.0 if i == k else 0.0 for k in range(n)] for i in range(n)]
+    for col in range(n):
+        piv = max(range(col, n), key=lambda r: abs(m[r][col]))
+        if m[piv][col] == 0 or m[piv][col] != m[piv][col]:
+            return None
+        m[col], m[piv] = m[piv], m[col]
+        d = m[col][col]
+        m[col] = [v / d for v in m[col]]
+        for r in range(n):
+            if r != col and m[r][col] != 0:
+                f = m[r][col]
+                m[r] = [x - f * y for x, y in zip(m[r], m[col])]
+    na = math.sqrt(sum(v * v for colv in a for v in colv))
+    ni = math.sqrt(sum(m[i][n + k] ** 2 for i in range(n) for k in range(n)))
+    return na * ni
+
+
 def main(tier, seed, replay=None):
     run = Run("C06", tier, seed, "proof")
     rng = random.Random(seed)
@@ -173,14 +194,16 @@ def main(tier, seed, replay=None):
                           {"weighted": cw, "chi2_weighted": a, "chi2_twin": b})
             continue
         dg = [abs(unhx(sw["cov"]["cols"][j][j])) for j in range(sw["cov"]["c"])]
-        if min(dg) <= 0 or max(dg) / min(dg) > 1e6:
+        kap = cond_frobenius([[unhx(h) for h in col] for col in st["cov"]["cols"]])
+        if min(dg) <= 0 or max(dg) / min(dg) > 1e6 or kap is None or kap > 1e9:
             nstat -= 1
             nskip_stats += 1      # ill-conditioned normal matrix: the two inversions legitimately differ by u * kappa
             continue
         ca = [unhx(h) for col in sw["cov"]["cols"] for h in col]
         cb = [unhx(h) for col in st["cov"]["cols"] for h in col]
         nrm = max(max(abs(v) for v in cb), 1e-300)
-        if max(abs(x - y) for x, y in zip(ca, cb)) > 1e-7 * nrm:
+        # each of the two covariances is a computed inverse, accurate to about u * kappa(H^T H) = u * kappa(Cov)
+        if max(abs(x - y) for x, y in zip(ca, cb)) > max(1e-9, 1e-12 * kap) * nrm:
             run.violation("covariance of the weighted problem and of the row-scaled unweighted problem differ (%s weights)" % kind,
                           {"weighted": cw, "cov_weighted": sw["cov"], "cov_twin": st["cov"]})
     run.coverage.update({
@@ -196,6 +219,6 @@ def main(tier, seed, replay=None):
         "weight_kinds": kinds, "bit_exact_comparisons": nexact, "state_code_histogram": {str(k): v for k, v in hist.items()},
         "skipped_ill_conditioned": nskip})
     run.samples = [{"kind": kind, "ctor": cw["ctor"], "scalar": cw["scalar"], "meta": cw["meta"]} for cw, tw, t3, kind in pairs[:3]]
-    run.assumptions = ["reduced chi^2 (1e-9) and covariance (1e-7 of the largest entry) of weighted vs row-scaled problems are compared within tolerance: "
+    run.assumptions = ["reduced chi^2 (1e-9) and covariance (max(1e-9, 1e-12 * kappa_F(Cov)) of the largest entry; kappa_F > 1e9 skipped) of weighted vs row-scaled problems are compared within tolerance: "
                        "the two compute W*(D_k c) and (W D_k) c in different orders"]
     return run.finish()
